@@ -1,34 +1,46 @@
-"""R-FIN: no division by (log of, Student with, sqrt of a negative) statistic that is legitimately zero.
+"""R-FIN: no division by (modulus, fmod, log of) a statistic that is legitimately zero, no sqrt of a value that
+can be negative by rounding noise or by the sign of the degrees of freedom.
 
 gama-local's statistics have boundary cases in which a quantity is *exactly* zero: degrees of freedom 0,
 hence a posteriori reference deviation 0, v'Pv 0 for consistent observations, residual cofactor 0 for an
-uncontrolled observation, zero distance between coincident points, ...  (`tables/fin.json`: one *event* per
+uncontrolled observation, zero distance between coincident points, ...  `tables/fin.json` has one *event* per
 boundary case, the accessor / field / out parameter that yields it, the implications between events, and the
-never-zero facts relied on).  Every division, modulus, fmod, log whose operand can be such a zero, and every
-sqrt of a difference built from noisy cofactors, must be guarded.
+never-zero facts relied on.  A missing guard prints nan/inf for exactly the networks no test input covers.
 
-The rule is an abstract interpretation over the exported CFGs (forward must-analysis, one state per block):
+rule_fin is an abstract interpretation over the exported CFGs (forward must-analysis, one state per block,
+block inputs recomputed from the current edge states until nothing changes):
 
-* abstract value = alternatives of event sets ("the value is non-zero as soon as all events of one
-  alternative are excluded"), the events that force it to zero, provenance (tabled sources it is derived
-  from), an integer affine form `source + k`, a sign, and "difference of noisy quantities" for sqrt;
-  products / sqrt / fabs / negation / casts keep may-be-zero, a sum of non-negatives is zero only if both are,
-  a product with a value of unknown provenance can only be proven by a test of the product itself;
-* state = abstract values of locals (and of tabled fields of `this`), boolean locals bound to the condition
-  they were computed from, excluded events, lower bounds of integer sources (`dof > 1` gives `dof-1 != 0`),
-  locals known to be 0 and conditional exclusions "index local != 0 => event(index) excluded" (the
-  `imax` witness idiom of the text/HTML writers);
+* abstract value: alternatives of event sets ("the value is non-zero as soon as all events of one alternative
+  are excluded"), the events that force it to zero, provenance (tabled sources it is built from
+  multiplicatively), an integer affine form `source + k`, a sign, "sign is that of a signed integer source"
+  (dof can be negative), "difference of noisy cofactors" (for sqrt), kind coordinate.  Products / quotients /
+  sqrt / fabs / negation / casts keep may-be-zero; a sum of non-negatives is zero only if both are; a product
+  with a factor of unknown provenance can only be proven by a test of the product itself; sums of unknown sign
+  lose the provenance (not reported); coordinate minus coordinate is the zero-distance source;
+* state: values of locals and of tabled never-zero fields of `this`, boolean locals bound to the condition they
+  hold, excluded events, lower bounds of integer sources (`dof > 1` proves `dof-1 != 0`), compound
+  expressions tested as a whole (`sqs+squ > 0`), locals known to be 0 and conditional exclusions "index
+  local != 0 => event(index) excluded" (the `imax` witness idiom of the text/HTML writers);
 * branch edges refine the state with the polarity of the deciding sub-expression (clang's CFG already splits
   `&&`, `||`, `?:`), so `if (dof > 0)`, `if (dof == 0) return`, `x > 0 ? a/x : 0`, a bool local, `if (!(c))
-  continue`, `if (x <= 0) x = 1`, early throw are all the same thing; an assignment kills what it invalidates;
-* parameters are symbolic: a site that depends on a parameter only is decided from *all* call sites (guard in
-  the caller); a guard inside the callee is just a guard (`Student`'s N); callees that receive a tainted
-  argument are analysed on demand;
-* tabled never-zero fields are verified, not trusted: every function that writes the field leaves it
-  non-zero on every normal exit (`if (ab_median <= 0) ab_median = 1`), setter parameters go to the callers.
+  continue`, `if (x <= 0) x = 1`, `std::max(x, eps)`, an early throw are one mechanism; contradictory edges
+  are infeasible; an assignment kills what it invalidates (facts on `i` at `i++`, a new call of an
+  out-parameter function);
+* parameters are symbolic: a site that depends only on a parameter is decided from *all* call sites (guard in
+  the caller), a guard inside the callee is just a guard (`Student`'s N <= 2 branches), callees that receive a
+  tainted argument are analysed on demand; for non-public methods and functions of an anonymous namespace an
+  unexcluded event is also looked up at every call site (parameterless helpers that read the accessors);
+* tabled never-zero fields are verified, not trusted: the invariant is assumed on entry of a method and every
+  function that writes the field must leave it non-zero on every normal exit (`if (ab_median <= 0)
+  ab_median = 1`); a setter parameter is followed to all callers (GKFparser refuses sigma-apr <= 0).
 
-Denominators of unknown provenance are not reported (counted in the evidence).  A BAD verdict that depends on
-a branch condition the interpreter could not read is exit 2 (AnalysisBroken), never a violation.
+Instances: one per (function, operation whose operand carries a tabled source), keyed
+`Function(sig):kind:shape#n`; the shape renders the operand with locals replaced by the sources they carry, so
+it does not depend on local names; n is the ordinal among equal shapes in source order of the function.
+Instantiations of one template are reported once.  Denominators of unknown provenance are not decided
+(counted in the notes).  A BAD verdict that depends on a branch condition the interpreter could not read is
+exit 2 (AnalysisBroken), never a violation.  Assumption: the statistics accessors of one network are stable
+within one analysed function (nothing re-adjusts the network between a guard and the use).
 Nothing is executed; no source text, line number or statement order is matched.
 """
 import collections
@@ -47,15 +59,14 @@ NZ_ALTS = (frozenset(),)
 EMPTY = frozenset()
 MAX_ALTS = 6
 
-AV = collections.namedtuple("AV", "alts must src psrc aff sign neg diff kind const q")
-UNK = AV(None, EMPTY, EMPTY, EMPTY, None, "?", False, EMPTY, None, None, EMPTY)
+AV = collections.namedtuple("AV", "alts must src psrc aff sign neg diff kind const q sg")
+UNK = AV(None, EMPTY, EMPTY, EMPTY, None, "?", False, EMPTY, None, None, EMPTY, None)
 
 CASTS = ("ImplicitCastExpr", "CStyleCastExpr", "CXXStaticCastExpr", "CXXFunctionalCastExpr",
          "CXXConstCastExpr", "CXXReinterpretCastExpr")
 CMP = ("<", ">", "<=", ">=", "==", "!=")
 NEGATE = {"<": ">=", ">": "<=", "<=": ">", ">=": "<", "==": "!=", "!=": "=="}
 FLIP = {"<": ">", ">": "<", "<=": ">=", ">=": "<=", "==": "==", "!=": "!="}
-DIV_OPS = ("/", "%", "/=", "%=")
 FMOD = ("fmod", "fmodf", "fmodl", "remainder", "drem")
 LOGS = ("log", "logf", "logl", "log10", "log2", "log10f", "log2f")
 SQRTS = ("sqrt", "sqrtf", "sqrtl")
@@ -74,8 +85,22 @@ def table():
 # =========================================================================== abstract values
 
 def mk(alts=None, must=EMPTY, src=EMPTY, psrc=EMPTY, aff=None, sign="?", neg=False, diff=EMPTY, kind=None,
-       const=None, q=EMPTY):
-    return AV(alts, must, src, psrc, aff, sign, neg, diff, kind, const, q)
+       const=None, q=EMPTY, sg=None):
+    """sg = (event, +1/-1): the sign of the value is that of a tabled signed integer source (times polarity)."""
+    return AV(alts, must, src, psrc, aff, sign, neg, diff, kind, const, q, sg)
+
+
+def sg_mul(a, b):
+    nonneg = ("+", "0+")
+    if a.sg is not None and b.sg is None and b.sign in nonneg:
+        return a.sg
+    if b.sg is not None and a.sg is None and a.sign in nonneg:
+        return b.sg
+    if a.sg is not None and b.sg is None and b.sign == "-":
+        return (a.sg[0], -a.sg[1])
+    if b.sg is not None and a.sg is None and a.sign == "-":
+        return (b.sg[0], -b.sg[1])
+    return None
 
 
 def const_av(c):
@@ -147,8 +172,11 @@ def av_mul(a, b, same=False):
     else:
         sign = sign_mul(a.sign, b.sign)
     neg = False if sign in ("+", "0+") else (a.neg or b.neg)
+    sg = None if same else sg_mul(a, b)
+    if a.sg is not None and a.sg == b.sg:
+        sign, sg = ("0+" if sign == "?" else sign), None
     return mk(alts, a.must | b.must, a.src | b.src, a.psrc | b.psrc, None, sign, neg, a.diff | b.diff, None, None,
-              a.q | b.q)
+              a.q | b.q, sg)
 
 
 def av_div(a, b):
@@ -156,8 +184,11 @@ def av_div(a, b):
         return const_av(a.const / b.const)
     sign = sign_mul(a.sign, "+" if b.sign == "0+" else b.sign)
     neg = False if sign in ("+", "0+") else (a.neg or b.neg)
+    sg = sg_mul(a, b)
+    if a.sg is not None and a.sg == b.sg:
+        sign, sg = ("0+" if sign == "?" else sign), None
     return mk(a.alts, a.must, a.src, a.psrc, None, sign, neg, a.diff | b.diff,
-              a.kind if b.const is not None else None, None, a.q | b.q)
+              a.kind if b.const is not None else None, None, a.q | b.q, sg)
 
 
 def av_shift(a, c):
@@ -211,7 +242,8 @@ def av_sub(a, b):
 def av_neg(a):
     if a.const is not None:
         return const_av(-a.const)
-    return a._replace(sign=sign_neg(a.sign), aff=None, kind=None, neg=a.neg or bool(a.q and a.sign != "-"))
+    return a._replace(sign=sign_neg(a.sign), aff=None, kind=None, neg=a.neg or bool(a.q and a.sign != "-"),
+                      sg=None if a.sg is None else (a.sg[0], -a.sg[1]))
 
 
 def av_abs(a, root=False):
@@ -236,7 +268,7 @@ def av_join(a, b):
         sign = "?"
     return mk(alts, a.must & b.must, a.src | b.src, a.psrc | b.psrc, a.aff if a.aff == b.aff else None, sign,
               a.neg or b.neg, a.diff | b.diff, a.kind if a.kind == b.kind else None,
-              a.const if a.const == b.const else None, a.q | b.q)
+              a.const if a.const == b.const else None, a.q | b.q, a.sg if a.sg == b.sg else None)
 
 
 def atoms_of(v):
@@ -274,13 +306,14 @@ def opaque_out(v, key):
         alts = norm_alts([frozenset(OPAQUE if mentions(x, key) else x for x in alt) for alt in alts])
     must = frozenset(x for x in v.must if not mentions(x, key))
     aff = v.aff if (v.aff is None or not mentions(v.aff[0], key)) else None
-    return v._replace(alts=alts, must=must, aff=aff)
+    sg = v.sg if (v.sg is None or not mentions(v.sg[0], key)) else None
+    return v._replace(alts=alts, must=must, aff=aff, sg=sg)
 
 
 # =========================================================================== state
 
 class State:
-    __slots__ = ("env", "bexpr", "ex", "lb", "zero", "cf", "uc", "dead")
+    __slots__ = ("env", "bexpr", "ex", "lb", "zero", "cf", "uc", "dead", "nzx")
 
     def __init__(self):
         self.env = {}        # key -> AV; key = ('l', decl) or ('f', field)
@@ -291,6 +324,7 @@ class State:
         self.cf = set()      # (local key, event): local != 0  =>  event excluded
         self.uc = set()      # ids of branch conditions on the way that could not be interpreted
         self.dead = False    # set by a refinement that contradicts the state (infeasible edge)
+        self.nzx = {}        # canonical compound expression -> sign: tested non-zero as a whole
 
     def copy(self):
         s = State()
@@ -301,11 +335,12 @@ class State:
         s.zero = set(self.zero)
         s.cf = set(self.cf)
         s.uc = set(self.uc)
+        s.nzx = dict(self.nzx)
         return s
 
     def same(self, o):
         return (self.env == o.env and self.bexpr == o.bexpr and self.ex == o.ex and self.lb == o.lb
-                and self.zero == o.zero and self.cf == o.cf and self.uc == o.uc)
+                and self.zero == o.zero and self.cf == o.cf and self.uc == o.uc and self.nzx == o.nzx)
 
 
 def join_states(a, b):
@@ -333,13 +368,16 @@ def join_states(a, b):
             if e not in s.ex:
                 s.cf.add((d, e))
     s.uc = a.uc | b.uc
+    for k, v in a.nzx.items():
+        if k in b.nzx:
+            s.nzx[k] = v if v == b.nzx[k] else "?"
     return s
 
 
 # =========================================================================== per-function interpreter
 
 class Site:
-    __slots__ = ("fn", "node", "kind", "den", "av", "proven", "blame", "uc", "order")
+    __slots__ = ("fn", "node", "kind", "den", "av", "proven", "blame", "uc", "order", "shape")
 
 
 class CallArg:
@@ -361,6 +399,7 @@ class Model:
         self.coord = set(self.T["coordinate_accessors"])
         self.quant = {k: v for k, v in self.T["quantities"].items() if not k.startswith("_")}
         self.nz = self.T["never_zero"]
+        self.signs = self.T.get("signs", {})
         self.nzf = self.T["never_zero_fields"]
         self.scope = set(self.T["scope_files"])
         for ev in list(self.acc.values()) + list(self.fields.values()):
@@ -370,9 +409,23 @@ class Model:
             for x in e.get("implied_by", []) + e.get("implies_one_of", []):
                 if x not in self.events:
                     raise AnalysisBroken("fin.json: event %s refers to unknown event %s" % (name, x))
-        self.results = {}      # fn key -> FnRun
-        self.unknown_dens = 0
-        self.nz_reliance = 0
+        # helpers whose callers are all known: non-public methods and functions of an anonymous namespace
+        self.helpers = set()
+        for f in self.fx.functions.values():
+            if f.body is None:
+                continue
+            if (f.cls and f.rec.get("access") in (1, 2) and not f.rec.get("virtual")) or \
+                    "(anonymous namespace)" in f.key:
+                self.helpers.add(f.key)
+        self.callers = collections.defaultdict(set)     # callee key -> keys of functions that call it
+        for f in self.fx.functions.values():
+            if f.body is None:
+                continue
+            for c in f.calls():
+                ck = c.get("calleeKey")
+                if ck in self.helpers:
+                    self.callers[ck].add(f.key)
+        self.nz_reliance = set()     # (function, node) where a never-zero fact was used
 
     # -- events
     def ev_atom(self, name, recv, args):
@@ -392,13 +445,14 @@ class Model:
         e = self.events[name]
         aff = (atom, 0) if e.get("int") else None
         sign = "0+" if ((e.get("int") and e.get("min", None) == 0) or e.get("nonneg")) else "?"
-        return mk((frozenset([atom]),), frozenset([atom]), frozenset([name]), EMPTY, aff, sign)
+        sg = (atom, 1) if (e.get("int") and e.get("min", None) is None) else None
+        return mk((frozenset([atom]),), frozenset([atom]), frozenset([name]), EMPTY, aff, sign, sg=sg)
 
 
 class FnRun:
     """Abstract interpretation of one function."""
 
-    def __init__(self, M, fn, entry_ex=None):
+    def __init__(self, M, fn):
         self.M = M
         self.fn = fn
         self.nodes = fn.nodes
@@ -406,20 +460,22 @@ class FnRun:
         self.params = {p["decl"]: (i, p) for i, p in enumerate(fn.params) if "decl" in p}
         self.sites = []
         self.callargs = []
+        self.snapshots = []          # (call node, state) for calls of helpers (guard-in-the-caller summaries)
         self.exit_state = None
         self.field_writes = set()
         self.recording = False
-        self.entry_ex = entry_ex
         self.bound_nodes = {}
         self._order = {}
         for i, n in enumerate(fn.walk()):
             self._order[n["id"]] = i
         self.local_types = {}
+        self.decl_recs = {}
         for n in fn.walk():
             if n.get("k") == "DeclStmt":
                 for d in n.get("decls", []):
                     if "decl" in d:
                         self.local_types[d["decl"]] = d.get("t", "")
+                        self.decl_recs[d["decl"]] = d
         for d, (i, p) in self.params.items():
             self.local_types[d] = p.get("t", "")
 
@@ -472,6 +528,17 @@ class FnRun:
         return mk((frozenset([atom]),), frozenset([atom]), EMPTY, frozenset([i]), (atom, 0) if is_int else None)
 
     def eval(self, n, st):
+        v = self.eval0(n, st)
+        if st.nzx and n is not None and n.get("k") in ("BinaryOperator", "CallExpr", "CXXMemberCallExpr",
+                                                        "CXXOperatorCallExpr") and v.const is None:
+            sg = st.nzx.get(self.canon(n))
+            if sg is not None:
+                v = v._replace(alts=NZ_ALTS, sign=sg if sg in ("+", "-") else
+                               (v.sign if v.sign in ("+", "-") else ("+" if v.sign == "0+" else "?")),
+                               neg=False if sg == "+" else v.neg)
+        return v
+
+    def eval0(self, n, st):
         if n is None:
             return UNK
         k = n.get("k")
@@ -544,6 +611,10 @@ class FnRun:
             self.refine(c[0], True, s1)
             s2 = st.copy()
             self.refine(c[0], False, s2)
+            if s1.dead and not s2.dead:
+                return self.eval(c[2], s2)
+            if s2.dead and not s1.dead:
+                return self.eval(c[1], s1)
             return av_join(self.eval(c[1], s1), self.eval(c[2], s2))
         if is_call(n):
             return self.eval_call(n, st)
@@ -581,7 +652,8 @@ class FnRun:
         qn = "%s::%s" % (strip_targs(n.get("owner") or ""), n.get("member"))
         M = self.M
         if qn in M.nzf:
-            M.nz_reliance += 1 if self.recording else 0
+            if self.recording:
+                M.nz_reliance.add((self.fn.key, n["id"]))
             return nz_av(M.nzf[qn].get("sign", "?"))
         if qn in M.fields and not M.events[M.fields[qn]["event"]].get("indexed"):
             return M.ev_av(M.ev_atom(M.fields[qn]["event"], ("this",), ()))
@@ -604,11 +676,19 @@ class FnRun:
             v = M.ev_av(atom)
             if callee in M.quant:
                 v = v._replace(q=frozenset([M.quant[callee]]))
+            if v.aff is not None:
+                lb = self.lower(atom, st)
+                if lb is not None and lb >= 1:
+                    v = v._replace(sign="+")
+                elif lb is not None and lb >= 0:
+                    v = v._replace(sign="0+")
             return v
         if callee in M.nz:
             if self.recording:
-                M.nz_reliance += 1
+                M.nz_reliance.add((self.fn.key, n["id"]))
             return nz_av(M.nz[callee].get("sign", "?"))
+        if callee in M.signs:
+            return UNK._replace(sign=M.signs[callee]["sign"])
         if callee in M.coord and not args:
             return UNK._replace(kind="coord")
         if callee in M.quant:
@@ -632,9 +712,14 @@ class FnRun:
                 return nz_av("+")
             if simple in ("pow", "powf") and len(args) == 2:
                 a = self.eval(args[0], st)
+                e = self.eval(args[1], st)
                 if a.sign == "+":
                     return nz_av("+", a.src)
-                return UNK._replace(src=a.src, psrc=a.psrc)
+                if e.const is not None and e.const > 0:
+                    even = float(e.const).is_integer() and int(e.const) % 2 == 0
+                    return mk(a.alts, a.must, a.src, a.psrc, None, "0+" if (even or a.sign == "0+") else "?",
+                              False if even else a.neg, a.diff, None, None, a.q)
+                return UNK
             if simple == "max" and callee.startswith("std::") and len(args) == 2:
                 a, b = self.eval(args[0], st), self.eval(args[1], st)
                 if "+" in (a.sign, b.sign):
@@ -671,13 +756,22 @@ class FnRun:
             one_of = e.get("implies_one_of") or []
             if one_of and depth < 4:
                 rel = [self.M.related(atom, x) for x in one_of]
-                if all(r is not None and self.excluded(r, st, depth + 1) for r in rel):
+                if all(r is not None and self.excluded_cause(r, st, depth + 1) for r in rel):
                     return True
             return False
         if tag == "par":
             lb = st.lb.get(atom)
             return lb is not None and lb >= 1
         return False
+
+    def excluded_cause(self, atom, st, depth):
+        """As excluded(), but a signed integer cause (dof: the accessors answer 0 for dof <= 0) must be
+        bounded from below by 1, not merely be non-zero."""
+        e = self.M.events[atom[1]]
+        if e.get("int") and e.get("min") is None:
+            lb = self.lower(atom, st)
+            return lb is not None and lb >= 1
+        return self.excluded(atom, st, depth)
 
     def lower(self, atom, st):
         lb = st.lb.get(atom)
@@ -763,6 +857,20 @@ class FnRun:
                 return self.M.fields[qn]["event"]
         return None
 
+    def kill_atom(self, atom, st):
+        st.ex.discard(atom)
+        st.lb.pop(atom, None)
+        for p in [p for p in st.cf if p[1] == atom]:
+            st.cf.discard(p)
+        for k2, v in list(st.env.items()):
+            if atom in atoms_of(v):
+                alts = v.alts
+                if alts is not None:
+                    alts = norm_alts([frozenset(OPAQUE if x == atom else x for x in alt) for alt in alts])
+                st.env[k2] = v._replace(alts=alts, must=v.must - {atom},
+                                        aff=None if (v.aff and v.aff[0] == atom) else v.aff,
+                                        sg=None if (v.sg and v.sg[0] == atom) else v.sg)
+
     def kill_event(self, name, st):
         for a in [a for a in st.ex if a[0] == "ev" and a[1] == name]:
             st.ex.discard(a)
@@ -804,6 +912,9 @@ class FnRun:
         if k in CASTS and c:
             self.set_nonzero(c[0], st, sign)           # also int(x) != 0 implies x != 0
             return
+        if k in ("BinaryOperator", "CallExpr", "CXXMemberCallExpr", "CXXOperatorCallExpr") and \
+                n.get("op") not in ("=", ",") and not self.has_call(n):
+            st.nzx[self.canon(n)] = sign or "?"
         if k == "UnaryOperator" and n.get("op") in ("-", "+") and c:
             self.set_nonzero(c[0], st, sign_neg(sign) if (sign and n.get("op") == "-") else sign)
             return
@@ -847,8 +958,11 @@ class FnRun:
 
     def mentions_tracked(self, n, st):
         for x in walk(n):
-            if self.key_of(x) is not None:
-                return True
+            key = self.key_of(x)
+            if key is not None:
+                v = st.env.get(key)
+                if v is not None and (v.src or v.psrc or v.diff):
+                    return True
             if is_call(x):
                 cal = strip_targs(x.get("callee") or "")
                 if cal in self.M.acc or cal in self.M.boolacc:
@@ -979,6 +1093,8 @@ class FnRun:
         for p in [p for p in st.cf if p[0] == key or mentions(p[1], key)]:
             st.cf.discard(p)
         st.zero.discard(key)
+        for x in [x for x in st.nzx if mentions(x, key)]:
+            del st.nzx[x]
         for k2 in [k2 for k2, nid in st.bexpr.items()
                    if k2 == key or self.node_mentions(self.bound_nodes.get(nid), key)]:
             del st.bexpr[k2]
@@ -1029,20 +1145,22 @@ class FnRun:
             return [p.get("t") or "" for p in fn.params]
         return None
 
+    def declare(self, d, st):
+        key = ("l", d["decl"])
+        init = d.get("init")
+        if init is not None:
+            self.assign(key, self.eval(init, st), init, st)
+        else:
+            self.kill(key, st)
+            st.env[key] = UNK
+
     def effect(self, n, st):
         k = n.get("k")
         c = n.get("c") or []
         if k == "DeclStmt":
             for d in n.get("decls", []):
-                if "decl" not in d:
-                    continue
-                key = ("l", d["decl"])
-                init = d.get("init")
-                if init is not None:
-                    self.assign(key, self.eval(init, st), init, st)
-                else:
-                    self.kill(key, st)
-                    st.env[key] = UNK
+                if "decl" in d:
+                    self.declare(d, st)
             return
         if k == "BinaryOperator" and n.get("op") == "=":
             key = self.key_of(c[0])
@@ -1073,8 +1191,6 @@ class FnRun:
         callee = strip_targs(n.get("callee") or "")
         args = self.args_of(n) if n.get("k") not in ("CXXConstructExpr", "CXXTemporaryObjectExpr") else call_args(n)
         ptypes = self.callee_params(n)
-        if n.get("k") == "CXXOperatorCallExpr" and not n.get("memberOp"):
-            pass
         spec = M.outp.get(callee)
         events = {}
         if spec is not None and len(args) >= 1:
@@ -1082,11 +1198,11 @@ class FnRun:
                 idx = [len(args) - spec["last"] + i for i in range(spec["last"])]
             else:
                 idx = spec["index"]
-            obj = call_object(n)
-            recv = self.canon(obj) if obj is not None else ("none",)
             for i, evname in zip(idx, spec["events"]):
                 if 0 <= i < len(args):
+                    # one event per call site; a new execution of the call yields a new value
                     events[i] = M.ev_atom(evname, ("call", n["id"]), ())
+                    self.kill_atom(events[i], st)
         sig = ""
         if ptypes is None:
             c0 = (n.get("c") or [{}])[0]
@@ -1141,19 +1257,104 @@ class FnRun:
         s = Site()
         s.fn, s.node, s.kind, s.den, s.av = self.fn, n, kind, den, v
         s.order = self._order.get(n["id"], 0)
-        s.uc = set(st.uc)
+        s.uc = []
+        s.shape = self.shape(den, st)
         if kind == "sqrt":
-            if not v.diff:
+            if not v.diff and v.sg is None:
                 return
             s.proven = not v.neg
+            if v.sg is not None and v.sign not in ("+", "0+"):
+                lb = self.lower(v.sg[0], st)
+                s.proven = s.proven and v.sg[1] > 0 and lb is not None and lb >= 0
             s.blame = EMPTY
+            if not s.proven:
+                s.uc = self.related_conditions(den, EMPTY, st)
             self.sites.append(s)
             return
         if v.const is not None:
             return
         s.proven = self.proven(v, st)
         s.blame = EMPTY if s.proven else self.blame(v, st)
+        if not s.proven:
+            s.uc = self.related_conditions(den, s.blame, st)
         self.sites.append(s)
+
+    def shape(self, n, st, depth=0):
+        """Rendering of an operand that does not depend on the names of locals: a local is shown as the tabled
+        sources it carries, a call as its simple name."""
+        if n is None or depth > 8:
+            return "_"
+        k = n.get("k")
+        c = n.get("c") or []
+        key = self.key_of(n)
+        if key is not None or (k == "DeclRefExpr"):
+            v = self.eval(n, st)
+            if v.src:
+                return "+".join(sorted(v.src))
+            if v.diff:
+                return "d(" + "+".join(sorted(v.diff)) + ")"
+            if v.psrc:
+                return "p" + "".join(str(i + 1) for i in sorted(v.psrc))
+            if v.const is not None:
+                return "%g" % v.const
+            return "_"
+        if k in ("IntegerLiteral", "FloatingLiteral"):
+            try:
+                return "%g" % float(n.get("v"))
+            except (TypeError, ValueError):
+                return "c"
+        if k in CASTS and c:
+            return self.shape(c[0], st, depth + 1)
+        if k in ("BinaryOperator", "CompoundAssignOperator") and len(c) == 2:
+            return "(%s%s%s)" % (self.shape(c[0], st, depth + 1), n.get("op"), self.shape(c[1], st, depth + 1))
+        if k == "UnaryOperator" and c:
+            return "%s%s" % (n.get("op"), self.shape(c[0], st, depth + 1))
+        if is_call(n):
+            callee = strip_targs(n.get("callee") or "")
+            if callee in self.M.acc:
+                return self.M.acc[callee]["event"]
+            ev = self.event_field(n)
+            if ev:
+                return ev
+            simple = callee.rsplit("::", 1)[-1]
+            args = self.args_of(n) if k not in ("CXXConstructExpr", "CXXTemporaryObjectExpr") else call_args(n)
+            if k in ("CXXConstructExpr", "CXXTemporaryObjectExpr") and len(args) == 1:
+                return self.shape(args[0], st, depth + 1)
+            return "%s(%s)" % (simple, ",".join(self.shape(a, st, depth + 1) for a in args))
+        if k == "MemberExpr":
+            ev = self.event_field(n)
+            return ev or "_"
+        return "_"
+
+    def related_conditions(self, den, blame, st):
+        """Uninterpreted branch conditions on the way that test something the verdict depends on."""
+        if not st.uc:
+            return []
+        names = {a[1] for a in blame if a[0] == "ev"}
+        names |= {a[1][1] for a in blame if a[0] == "aff" and a[1][0] == "ev"}
+        den_keys = {}
+        for x in walk(den):
+            key = self.key_of(x)
+            if key is not None:
+                v = st.env.get(key)
+                if v is not None and v.alts is not None and (not blame or (atoms_of(v) & set(blame))):
+                    den_keys[key] = v
+        out = []
+        for cid in sorted(st.uc):
+            cn = self.nodes.get(cid)
+            if cn is None:
+                continue
+            hit = False
+            for x in walk(cn):
+                if self.key_of(x) in den_keys:
+                    hit = True
+                if is_call(x):
+                    cal = strip_targs(x.get("callee") or "")
+                    if cal in self.M.acc and self.M.acc[cal]["event"] in names:
+                        hit = True
+            if hit:
+                out.append(expr_text(cn))
+        return out
 
     def visit_call(self, n, st):
         if n.get("k") in ("CXXOperatorCallExpr",) and n.get("op") in ("<<", ">>"):
@@ -1161,6 +1362,8 @@ class FnRun:
         ckey = n.get("calleeKey")
         if not ckey or ckey not in self.M.fx.functions:
             return
+        if ckey in self.M.helpers:
+            self.snapshots.append((n, st.copy()))
         args = call_args(n)
         if n.get("k") == "CXXOperatorCallExpr" and n.get("memberOp"):
             args = args[1:]
@@ -1179,6 +1382,46 @@ class FnRun:
             self.callargs.append(r)
 
     # ---------------------------------------------------------------- fixpoint
+    def translate(self, atom, callee_run, call):
+        """An event of the callee's name space expressed in this (the caller's) name space, or None."""
+        if atom[0] == "aff":
+            t = self.translate(atom[1], callee_run, call)
+            return None if t is None else ("aff", t, atom[2])
+        if atom[0] != "ev":
+            return None
+        args = self.args_of(call) if call.get("k") not in ("CXXConstructExpr", "CXXTemporaryObjectExpr") \
+            else call_args(call)
+        obj = call_object(call)
+
+        def tr(x):
+            if x == ("this",):
+                if call.get("k") == "CXXMemberCallExpr" and obj is not None:
+                    return self.canon(obj)
+                return None
+            if isinstance(x, tuple) and x and x[0] == "l":
+                if x[1] in callee_run.params:
+                    i = callee_run.params[x[1]][0]
+                    return self.canon(args[i]) if i < len(args) else None
+                return None
+            if isinstance(x, tuple) and x and x[0] == "f":
+                if call.get("k") == "CXXMemberCallExpr" and obj is not None:
+                    o = self.canon(obj)
+                    return x if o == ("this",) else ("m", o, x[1])
+                return None
+            if isinstance(x, tuple) and x and x[0] == "c":
+                return x
+            return None
+        recv = tr(atom[2])
+        if recv is None:
+            return None
+        targs = []
+        for a in atom[3]:
+            t = tr(a)
+            if t is None:
+                return None
+            targs.append(t)
+        return ("ev", atom[1], recv, tuple(targs))
+
     def entry_state(self):
         st = State()
         for init in self.fn.rec.get("inits", []) or []:
@@ -1191,14 +1434,24 @@ class FnRun:
                     v = self.eval(val, st)
                     st.env[("f", fld)] = v
                     self.field_writes.add(fld)
-        if self.entry_ex:
-            for a in self.entry_ex:
-                self.exclude(a, st)
+        # never-zero fields of the own class: the invariant holds on entry of every method (it is
+        # established by the constructors and preserved by every writer - both checked at their exits)
+        owner = strip_targs(self.fn.cls or "")
+        for qn, spec in self.M.nzf.items():
+            o, fld = qn.rsplit("::", 1)
+            if o != owner or ("f", fld) in st.env:
+                continue
+            st.env[("f", fld)] = UNK if self.fn.rec.get("ctor") else nz_av(spec.get("sign", "?"))
         return st
 
     def transfer(self, bid, st):
         blk = self.cfg.blocks[bid]
         for e in blk.get("el", []):
+            if isinstance(e, dict) and "decl" in e:
+                d = self.decl_recs.get(e["decl"])      # one declarator of a multi-declarator statement
+                if d is not None:
+                    self.declare(d, st)
+                continue
             if not isinstance(e, int):
                 continue
             n = self.nodes.get(e)
@@ -1291,17 +1544,48 @@ class FnRun:
 # =========================================================================== the rule
 
 def _fn_label(fn):
-    return fn.sig
+    """Function part of an instance key: no white space (known_findings.txt keys are \\S+)."""
+    return fn.sig.replace(" ", "")
 
 
 def _src_label(src):
     return "+".join(sorted(src)) if src else "?"
 
 
-def rule_fin(ctx):
+VIEWS = {
+    # which instances belong to which property (the analysis and its floors are always the whole one)
+    "C20": lambda f: True,
+    "C09": lambda f: f in ("lib/gnu_gama/local/network.h", "lib/gnu_gama/local/network.cpp"),
+    "C11": lambda f: f in ("lib/gnu_gama/local/local_linearization.cpp", "lib/gnu_gama/local/bearing.cpp",
+                           "lib/gnu_gama/local/test_linearization_visitor.cpp",
+                           "lib/gnu_gama/local/test_linearization_visitor.h", "lib/gnu_gama/statan.cpp",
+                           "lib/gnu_gama/local/svg.cpp", "lib/gnu_gama/xml/gkfparser.cpp"),
+    "C19": lambda f: f.startswith("lib/gnu_gama/g3/"),
+}
+
+
+def rule_fin_c09(ctx):
+    return rule_fin(ctx, "C09")
+
+
+def rule_fin_c11(ctx):
+    return rule_fin(ctx, "C11")
+
+
+def rule_fin_c19(ctx):
+    return rule_fin(ctx, "C19")
+
+
+def rule_fin_c20(ctx):
+    return rule_fin(ctx, "C20")
+
+
+def rule_fin(ctx, view=None):
+    """view: None / 'C20' = every instance; 'C09', 'C11', 'C19' = the instances of that property (VIEWS).
+    Never-zero field instances belong to C11 and C20."""
     fx = ctx.facts
+    in_view = VIEWS[view] if view else (lambda f: True)
     M = Model(ctx)
-    T = M.T
     # anchors: every tabled accessor / field owner / out-parameter function must exist
     for qn in list(M.acc) + list(M.boolacc) + list(M.outp) + list(M.coord):
         fx.fn(qn)
@@ -1386,13 +1670,19 @@ def rule_fin(ctx):
         for s in r.sites:
             per_fn[r.fn.key].append(s)
     kinds = collections.Counter()
+    seen_templates = {}
+    n_merged = 0
     for fkey in sorted(per_fn):
         sites = sorted(per_fn[fkey], key=lambda s: s.order)
         fn = sites[0].fn
+        tkey = (fn.file, fn.line, fn.qn)
+        if seen_templates.setdefault(tkey, fkey) != fkey:
+            n_merged += 1            # another instantiation of the same template: same sites
+            continue
         ordinals = collections.Counter()
         for s in sites:
             v = s.av
-            src = set(v.src) if s.kind != "sqrt" else set(v.diff)
+            src = set(v.src) if s.kind != "sqrt" else (set(v.diff) | ({v.sg[0][1]} if v.sg else set()))
             params = set(v.psrc)
             for j in params:
                 src |= psrc[(fkey, j)]
@@ -1411,7 +1701,9 @@ def rule_fin(ctx):
                 if v.alts is None:
                     n_unknown += 1
                     continue
-                if hard:
+                if hard and _callers_guard(M, runs, analyse, runs[fkey], hard):
+                    ok = True                   # every caller of this helper excludes the events
+                elif hard:
                     why = "operand %s can be zero (%s) and no test excludes it on every path" % (
                         expr_text(s.den), ", ".join(sorted(set(_atom_text(a) for a in hard))) or label)
                 else:
@@ -1428,19 +1720,26 @@ def rule_fin(ctx):
                         continue
                     else:
                         ok = True               # every caller guards
+            elif not ok and v.sg is not None and not v.neg and v.sg[1] > 0 and \
+                    _callers_guard(M, runs, analyse, runs[fkey], [v.sg[0]], nonneg=True):
+                ok = True
+            elif not ok and v.sg is not None and not v.neg:
+                why = "sqrt of %s, whose sign is that of %s: the value can be negative and only a test " \
+                      "`> 0` (not `!= 0`) excludes it" % (expr_text(s.den), v.sg[0][1])
             elif not ok:
                 why = "sqrt of a difference of noisy quantities (%s) without fabs / clamp / test" % label
-            ordinals[(s.kind, label)] += 1
-            key = "%s:%s:%s#%d" % (_fn_label(fn), s.kind, label, ordinals[(s.kind, label)])
+            ordinals[(s.kind, s.shape)] += 1
+            key = "%s:%s:%s#%d" % (_fn_label(fn), s.kind, s.shape, ordinals[(s.kind, s.shape)])
             if not ok and s.uc:
-                rel = _related_conditions(runs[fkey], s)
+                rel = s.uc
                 if rel:
                     raise AnalysisBroken("R-FIN: %s: verdict would be BAD but a branch condition on the way "
                                          "could not be interpreted (%s)" % (key, "; ".join(rel)))
             n_inst += 1
             kinds[s.kind] += 1
-            ctx.report(RULE, key, ok, fn.where(s.node), fn.short, msg=why,
-                       detail={"operand": expr_text(s.den), "sources": sorted(src), "kind": s.kind})
+            if in_view(fn.file):
+                ctx.report(RULE, key, ok, fn.where(s.node), fn.short, msg=why,
+                           detail={"operand": expr_text(s.den), "sources": sorted(src), "kind": s.kind})
 
     # ---- never-zero fields: every writer leaves the field non-zero on every normal exit
     n_nzf = 0
@@ -1451,42 +1750,75 @@ def rule_fin(ctx):
             raise AnalysisBroken("R-FIN: no writer of the never-zero field %s found" % qn)
         for r in sorted(writers, key=lambda r: r.fn.key):
             st = r.exit_state
-            key = "never-zero:%s:%s" % (short(qn), r.fn.sig)
+            key = "never-zero:%s:%s" % (short(qn), _fn_label(r.fn))
             n_nzf += 1
             if st is None:
-                ctx.ok(RULE, key, r.fn.where(), r.fn.short, detail={"exit": "no normal exit"})
+                if view in (None, "C20", "C11"):
+                    ctx.ok(RULE, key, r.fn.where(), r.fn.short, detail={"exit": "no normal exit"})
                 continue
-            v = st.env.get(("f", fld))
-            if v is None:
-                ctx.ok(RULE, key, r.fn.where(), r.fn.short, detail={"exit": "unchanged on some path"})
-                continue
+            v = st.env.get(("f", fld), UNK)
             ok = r.proven(v, st)
             why = ""
             if not ok:
                 bl = r.blame(v, st)
                 if v.alts is not None and bl and all(x[0] == "par" for x in bl):
-                    culprits = []
-                    n_calls = 0
-                    for x in bl:
-                        culprits += pbad[(r.fn.key, x[1])]
                     # an unknown-provenance argument is not a proof either: demand a proof at every call
                     unproven = _unproven_calls(fx, runs, r.fn, [x[1] for x in bl], analyse)
                     if not unproven:
                         ok = True
                     else:
                         why = "%s is written from parameter %d and %s passes a value that is not proven non-zero" % (
-                            fld, bl and sorted(bl)[0][1] + 1, unproven[0])
+                            fld, sorted(bl)[0][1] + 1, unproven[0])
                 else:
                     why = "%s can be left zero at the exit of %s" % (fld, r.fn.short)
-            ctx.report(RULE, key, ok, r.fn.where(), r.fn.short, msg=why, detail={"reason": spec.get("reason")})
+            if view in (None, "C20", "C11"):
+                ctx.report(RULE, key, ok, r.fn.where(), r.fn.short, msg=why, detail={"reason": spec.get("reason")})
 
+    ctx.note("R-FIN: %d further instantiations of already reported templates merged" % n_merged)
     ctx.note("R-FIN: %d functions analysed, %d sites with a tabled may-be-zero operand, %d denominators of "
              "unknown provenance (not decided), %d depending on parameters no tabled source reaches, "
-             "%d uses of never-zero facts" % (len(runs), n_inst, n_unknown, n_param_only, M.nz_reliance))
-    ctx.floor(RULE, 40, n_inst, "guarded-operation sites with a tabled may-be-zero operand")
+             "%d uses of never-zero facts" % (len(runs), n_inst, n_unknown, n_param_only, len(M.nz_reliance)))
+    ctx.note("R-FIN: sites by kind: %s" % dict(kinds))
+    ctx.floor(RULE, 55, n_inst, "guarded-operation sites with a tabled may-be-zero operand")
+    ctx.floor(RULE, 40, kinds["div"], "division sites")
+    ctx.floor(RULE, 15, kinds["sqrt"], "sqrt sites (difference of noisy quantities / sign of a signed source)")
     ctx.floor(RULE, 3, n_nzf, "never-zero field writers verified")
-    ctx.floor(RULE, 150, len(runs), "functions analysed")
+    ctx.floor(RULE, 390, len(runs), "functions analysed")
+    ctx.floor(RULE, 16, len(M.nz_reliance), "uses of never-zero facts")
     return runs
+
+
+def _callers_guard(M, runs, analyse, run, atoms, nonneg=False):
+    """True if `run`'s function is a helper all of whose call sites exclude every one of the given events
+    (nonneg: bound the signed integer sources from below by 0 instead)."""
+    key = run.fn.key
+    if key not in M.helpers:
+        return False
+    callers = M.callers.get(key) or set()
+    if not callers:
+        return False
+    for ck in sorted(callers):
+        cf = M.fx.functions.get(ck)
+        cr = analyse(cf) if cf is not None else None
+        if cr is None:
+            return False
+        snaps = [(n, st) for n, st in cr.snapshots if n.get("calleeKey") == key]
+        if not snaps:
+            return False              # the call sits in unreachable code or was not seen: no proof
+        for n, st in snaps:
+            for a in atoms:
+                t = cr.translate(a, run, n)
+                if nonneg:
+                    lb = cr.lower(t, st) if t is not None else None
+                    good = lb is not None and lb >= 0
+                else:
+                    good = t is not None and cr.excluded(t, st)
+                if not good:
+                    # one more level: the caller is itself a helper whose callers guard
+                    if t is not None and ck != key and _callers_guard(M, runs, analyse, cr, [t], nonneg):
+                        continue
+                    return False
+    return True
 
 
 def _sig_params(sig):
@@ -1510,10 +1842,6 @@ def _sig_params(sig):
     return out
 
 
-def r_of(runs, key):
-    return runs[key]
-
-
 def _atom_text(a):
     if a == OPAQUE:
         return "the value itself"
@@ -1526,33 +1854,6 @@ def _atom_text(a):
     if a[0] == "par":
         return "parameter %d" % (a[1] + 1)
     return str(a)
-
-
-def _related_conditions(run, site):
-    """Uninterpreted conditions on the way to the site that mention a local / accessor of the operand."""
-    keys = set()
-    names = set()
-    for x in walk(site.den):
-        k = run.key_of(x)
-        if k is not None:
-            keys.add(k)
-        if is_call(x):
-            names.add(strip_targs(x.get("callee") or ""))
-    out = []
-    for cid in sorted(site.uc):
-        cn = run.nodes.get(cid)
-        if cn is None:
-            continue
-        hit = False
-        for x in walk(cn):
-            if run.key_of(x) in keys and run.key_of(x) is not None:
-                hit = True
-            if is_call(x) and strip_targs(x.get("callee") or "") in names and \
-                    strip_targs(x.get("callee") or "") in run.M.acc:
-                hit = True
-        if hit:
-            out.append(expr_text(cn))
-    return out
 
 
 def _unproven_calls(fx, runs, fn, ks, analyse):
